@@ -274,22 +274,29 @@ def check_invariants(sigs, ratio, Q, res):
 
 
 def check_forms(res):
-    """the record may be any real array-like holding the same VALUES: integer dtypes, nested lists, Fortran order and
-    strided views give the spectrum and histories of the float64 C-ordered record bit for bit; the caller's arrays
-    (signal and frequency vector) are never modified"""
+    """the record may be any real array-like holding the same VALUES: every integer dtype that can hold them (signed,
+    unsigned, narrow), nested lists, Fortran order and strided views give the spectrum and histories of the float64
+    C-ordered record bit for bit; the caller's arrays (signal and frequency vector) are never modified"""
     from pyyeti import srs
 
     msgs = []
-    Xi = np.array([[0, 3], [3, -1], [-2, 4], [5, 0], [1, -6], [-4, 2], [2, 2], [0, -3], [6, 1], [-3, 0], [1, 5], [2, -2]], dtype=np.int64)
-    big = np.full((2 * Xi.shape[0] + 1, 2 * Xi.shape[1] + 1), 77.0)
-    big[1::2, 1::2] = Xi
+    recs = {
+        "signed": np.array([[0, 3], [3, -1], [-2, 4], [5, 0], [1, -6], [-4, 2], [2, 2], [0, -3], [6, 1], [-3, 0], [1, 5], [2, -2], [-1, 3], [4, -4]], dtype=np.int64),
+        # first sample large: unsigned / narrow arithmetic on (sig - sig[0]) would wrap around
+        "unsigned": np.array([[200, 90], [10, 255], [250, 0], [0, 128], [255, 7], [3, 250], [128, 31], [90, 200], [254, 254], [1, 2], [1, 77], [77, 130], [30, 9], [180, 60]], dtype=np.int64),
+    }
     fr = np.array([5.0, 12.0, 33.0])
-    for oneD, stype, ic, tm, getresp, rolloff in itertools.product((True, False), ("absacce", "pvelo", "reldisp"), ("zero", "steady"), ("primary", "residual"),
-                                                               (False, True), ("none", "lanczos")):
+    for rname, oneD, stype, ic, tm, getresp, rolloff in itertools.product(recs, (True, False), ("absacce", "pvelo", "reldisp"), ICS, ("primary", "residual"),
+                                                                      (False, True), ("none", "lanczos", "prefilter")):
+        Xi = recs[rname]
+        big = np.full((2 * Xi.shape[0] + 1, 2 * Xi.shape[1] + 1), 77.0)
+        big[1::2, 1::2] = Xi
         x = Xi[:, 0] if oneD else Xi
-        forms = {"int64": x, "int32": x.astype(np.int32), "int8": x.astype(np.int8), "list": x.tolist(),
-                 "strided": (big[1::2, 1] if oneD else big[1::2, 1::2]), "fortran": np.asfortranarray(x.astype(float)),
+        forms = {"list": x.tolist(), "strided": (big[1::2, 1] if oneD else big[1::2, 1::2]), "fortran": np.asfortranarray(x.astype(float)),
                  "freq-list": None, "freq-int": None}
+        for dt in (np.int8, np.int16, np.int32, np.int64, np.uint8, np.uint16, np.uint32, np.uint64):
+            if x.min() >= np.iinfo(dt).min and x.max() <= np.iinfo(dt).max:
+                forms[np.dtype(dt).name] = x.astype(dt)
 
         def call(sig, frq=fr):
             with warnings.catch_warnings():
@@ -298,7 +305,7 @@ def check_forms(res):
             return [np.asarray(out[0]), np.asarray(out[1]["hist"])] if getresp else [np.asarray(out)]
 
         base = call(x.astype(float))
-        res.ev("forms/%s/%s/%s/%d%d/%s" % (stype, ic, tm, oneD, getresp, rolloff))
+        res.ev("forms/%s/%s/%s/%s/%d%d/%s" % (rname, stype, ic, tm, oneD, getresp, rolloff))
         for fn, sig in forms.items():
             frq = fr
             if fn == "freq-list":
@@ -313,8 +320,8 @@ def check_forms(res):
                 msgs.append("srs(stype=%s, ic=%s, time=%s, getresp=%s, rolloff=%s) raised %r for input form %s" % (stype, ic, tm, getresp, rolloff, e, fn))
                 continue
             if not all(a.shape == b.shape and a.dtype == b.dtype and np.array_equal(a, b) for a, b in zip(got, base)):
-                msgs.append("srs(stype=%s, ic=%s, time=%s, getresp=%s, rolloff=%s, %s): input form %s gives a different result than the same values as C-ordered float64"
-                            % (stype, ic, tm, getresp, rolloff, "1-D" if oneD else "2-D", fn))
+                msgs.append("srs(stype=%s, ic=%s, time=%s, getresp=%s, rolloff=%s, %s %s record): input form %s gives a different result than the same values as C-ordered float64"
+                            % (stype, ic, tm, getresp, rolloff, "1-D" if oneD else "2-D", rname, fn))
             if (snap is not None and not (sig.dtype == snap.dtype and np.array_equal(sig, snap))) or (fsnap is not None and not np.array_equal(frq, fsnap)):
                 msgs.append("srs(stype=%s, ic=%s, time=%s, rolloff=%s) modified the caller's %s input" % (stype, ic, tm, rolloff, fn))
         if len(msgs) > 6:
